@@ -139,7 +139,7 @@ func (w *World) execQuery(r *Replica, s *Side, point string) {
 	if eff == 0 {
 		eff = committed
 	}
-	w.logf("S %s %s query %s %x h=%d -> %d %x", r.Name, point, s.Path, data, qh, res.Code, shortHash(res.Value))
+	w.logf("S %s %s query %s %x h=%d -> %d %x", r.Name, point, s.Path, data, qh, res.Code, shortHash(canonicalJSON(res.Value)))
 	if eff > committed {
 		w.Probes.Hit("query.future")
 		if res.Code == 0 && s.Path != "vm_call" && isKnownPath(s.Path) {
@@ -356,7 +356,7 @@ func (w *World) judgeQuery(r *Replica, path string, data []byte, h int64, res *a
 
 func (w *World) boundaryFaults(h int64, step *BlockStep) {
 	for _, f := range step.Faults {
-		if f.Kind != "restart" || f.Replica <= 0 || f.Replica >= len(w.Reps) {
+		if f.Kind != "restart" || f.Replica < 0 || f.Replica >= len(w.Reps) {
 			continue
 		}
 		r := w.Reps[f.Replica]
@@ -364,6 +364,9 @@ func (w *World) boundaryFaults(h int64, step *BlockStep) {
 			continue
 		}
 		w.Probes.Hit("fault.restart")
+		if f.Replica == 0 {
+			w.Probes.Hit("fault.restart-leader")
+		}
 		w.noteRestartContext(h)
 		r.StopGracefully()
 		r.Close()
